@@ -7,7 +7,9 @@ mod c05;
 mod c06;
 mod c08;
 mod c09;
+mod c10;
 mod c11;
+mod c14;
 mod c16;
 mod conv;
 mod corpus;
@@ -26,8 +28,10 @@ fn main() {
         "C06" => c06::run(),
         "C08" => c08::run(),
         "C09" => c09::run(),
+        "C10" => c10::run(),
         "C11" => c11::run(),
         "C16" => c16::run(),
+        "C14" => c14::run(),
         "C15" => c01::run(c01::Mode::C15),
         _ => {
             eprintln!("MACHINERY-ERROR unknown property id '{}'", id);
